@@ -41,6 +41,16 @@ inline uint64_t news() { return g_news; }
 inline uint64_t deletes() { return g_deletes; }
 inline int64_t live_allocs() { return (int64_t)g_news - (int64_t)g_deletes; }
 
+// bookkeeping of the driver itself must not show up in the harness' allocation balance
+struct NoCount {
+    uint64_t n, d;
+    NoCount() : n(g_news), d(g_deletes) {}
+    ~NoCount() {
+        g_news = n;
+        g_deletes = d;
+    }
+};
+
 inline double wall() {
     struct timespec ts;
     clock_gettime(CLOCK_MONOTONIC, &ts);
@@ -98,6 +108,7 @@ public:
         return true;
     }
     void begin(const std::string &desc) {
+        NoCount nc;
         cur = desc;
         case_fail = 0;
         if (g_wshm) {
@@ -109,6 +120,7 @@ public:
         if (replaying) printf("CASE %s\n", desc.c_str());
     }
     void end(bool nontrivial = true) {
+        NoCount nc;
         if (g_wshm) {
             g_wshm->in_case = 0;
             g_wshm->cases++;
@@ -119,8 +131,14 @@ public:
     void step(uint64_t n = 1) {
         if (g_wshm) g_wshm->transitions += n;
     }
-    void state(uint64_t key) { states.insert(key); }
-    void outcome(uint64_t key) { outcomes.insert(key); }
+    void state(uint64_t key) {
+        NoCount nc;
+        states.insert(key);
+    }
+    void outcome(uint64_t key) {
+        NoCount nc;
+        outcomes.insert(key);
+    }
     // non-fatal violation of the current case
     void fail(const char *sig, const char *fmt, ...) __attribute__((format(printf, 3, 4))) {
         char buf[1500];
@@ -140,6 +158,7 @@ public:
         printf("\n");
     }
     void emit(char kind, const char *sig, const char *detail) {
+        NoCount nc;
         if (replaying) {
             printf("OUTCOME sig=%s\nDETAIL %s\n", sig, detail);
             fflush(stdout);
